@@ -95,7 +95,7 @@ def gen_as(rng, derive):
     names = rng.sample(NAMES, n)
     s_src, s_sx = "", "-"
     fields = []
-    struct_level = n == 1 and rng.chance(1, 2)
+    struct_level = (n == 1 and rng.chance(1, 2)) or rng.chance(1, 12)     # on several fields: "can only be placed on structs with exactly one field"
     for i in range(n):
         ty, gen = rng.choice(TYS)
         a_src, a_sx = "", "-"
@@ -374,6 +374,72 @@ def behaviour(res, rng, tier):
         C.scratch_cleanup(d)
 
 
+# ---------------------------------------------------------------- generic parameters in every syntactic position
+# AsRef / AsMut with a listed type that differs from the field's type must forward (`where Field: AsRef<Listed>`) as soon as a
+# generic parameter of the struct occurs anywhere in either type — the autoref-specialised body "doesn't work when generics
+# are involved" — and may specialise only when none does. Oracle: a declared parameter occurs in a type iff its name is one
+# of the type's tokens (a type cannot shadow a parameter).
+POS_TEMPLATES = ["X", "&'L X", "&'L mut X", "[X; C]", "[X]", "*const X", "(X, Q)", "(Q, X, Q)", "fn(X) -> Q", "fn(Q) -> X", "fn(&'L Q)",
+                 "Box<X>", "K<X>", "K<C>", "K<{ C }>", "K<'L>", "W<'L, X, C>", "W<'static, Q, { C }>", "Box<dyn Tr<X>>", "Box<dyn Tr<Q> + 'L>",
+                 "Box<dyn Fn(X) -> Q>", "Box<dyn Fn(Q) -> X>", "<X as Tr<Q>>::Out", "<Q as Tr<X>>::Out", "Vec<[X; C]>", "Option<&'L [X]>",
+                 "K<{ C + 1 }>", "K<{ M::<X>() }>", "core::marker::PhantomData<(X, &'L Q)>", "Tr2<Item = X>", "(((X,),),)", "[[X; 2]; C]", "!"]
+FILL = {"X": ["T", "Q", "u8", "U"], "C": ["N", "3", "M"], "L": ["a", "static", "b"]}
+
+
+def fill_template(rng, t):
+    out = t
+    for hole, opts in FILL.items():
+        while re.search(rf"(?<![A-Za-z0-9_']){hole}(?![A-Za-z0-9_])" if hole != "L" else r"'L\b", out):
+            v = rng.choice(opts)
+            if hole == "L":
+                out = re.sub(r"'L\b", "'" + v, out, count=1)
+            else:
+                out = re.sub(rf"(?<![A-Za-z0-9_']){hole}(?![A-Za-z0-9_])", v, out, count=1)
+    return out
+
+
+def mentions_param(ty):
+    toks = re.findall(r"'[A-Za-z_]\w*|[A-Za-z_]\w*", ty)
+    return any(t in ("T", "U", "N", "M", "'a", "'b") for t in toks)
+
+
+def generic_positions(res, inproc, rng, n):
+    """(cases, disagreements): struct S<'a, 'b, T, U, const N: usize, const M: usize>(FIELD) with #[as_ref(LISTED)] / #[as_mut(LISTED)]."""
+    cases = []
+    for i in range(n):
+        field = fill_template(rng, rng.choice(POS_TEMPLATES))
+        listed = fill_template(rng, rng.choice(POS_TEMPLATES)) if rng.chance(1, 2) else rng.choice(["Q", "[Q]", "str"])
+        if G.strip_ws(field) == G.strip_ws(listed):
+            continue
+        derive, attr = rng.choice([("AsRef", "as_ref"), ("AsMut", "as_mut")])
+        place = rng.choice(["struct", "field"])
+        if place == "struct":
+            src = f"#[{attr}({listed})] struct S<'a, 'b, T, U, const N: usize, const M: usize>({field});"
+        else:
+            src = f"struct S<'a, 'b, T, U, const N: usize, const M: usize> {{ #[{attr}({listed})] f: {field}, g: u8 }}"
+        cases.append((derive, src, field, listed))
+    ans = C.drive(inproc, [f"expand {d} {C.hexs(src)}" for d, src, _, _ in cases])
+    bad, dist = [], {}
+    for (d, src, field, listed), a in zip(cases, ans):
+        want = "forwarded" if mentions_param(field) or mentions_param(listed) else "specialised"
+        if not a.startswith("ok"):
+            got = "rejected"
+            # (`!`, `{ C + 1 }` … may be refused by syn without its `full` feature: not this stage's business)
+            dist["rejected"] = dist.get("rejected", 0) + 1
+            continue
+        got = "specialised" if "__extract_ref" in a else ("forwarded" if "where" in a else "direct")
+        dist[want] = dist.get(want, 0) + 1
+        if got != want:
+            bad.append({"derive": d, "source": src, "field": field, "listed": listed, "expected": want, "got": got})
+    for b in sorted(bad, key=lambda b: len(b["source"]))[:4]:
+        res.violation(f"generic-position:{b['field'][:40]}:{b['listed'][:40]}:{b['got']}",
+                      f"#[derive({b['derive']})] {b['source']}: the impl is {b['got']}, but a generic parameter " +
+                      ("occurs in the field's or the listed type, so it must be forwarded with a where-clause (the specialised body does not compile for generic types)"
+                       if b["expected"] == "forwarded" else "occurs in neither type, so it must be the specialised one (a forwarded impl demands `Field: AsRef<Listed>` even when the listed type is the field's own)"),
+                      {"cmd": f"expand {b['derive']}", **b})
+    return len(cases), len(bad), dist
+
+
 def run(tier):
     res = C.Result("C14", tier)
     rng = C.Rng(C.seed())
@@ -396,6 +462,7 @@ def run(tier):
             if ma is not None and got != ma:
                 corr_bad.append({"derive": d, "source": src, "impl": got[:600], "model": ma[:600], "raw": ia[:300]})
         checks, nst = behaviour(res, rng, tier)
+        n_pos, n_pos_bad, pos_dist = generic_positions(res, inproc, rng, 1500 if tier == "quick" else 30000)
         extra = [("correspondence: selected field, target/return types and method bodies == model", lean_ok and not corr_bad)]
         cov = {
             "evaluations": len(cases) + checks,
@@ -403,7 +470,8 @@ def run(tier):
             "rule": "distinct (derive, struct with attribute placement) pairs expanded in-process + structs whose delegating methods are run with the real macro and compared by address/content with the field's own",
             "traces_validated_against_impl": len(cases),
             "model_vs_impl_disagreements": len(corr_bad),
-            "distribution": {"expansions": len(cases), "outcomes": kinds, "behaviour_structs": nst, "address_content_checks": checks},
+            "distribution": {"expansions": len(cases), "outcomes": kinds, "behaviour_structs": nst, "address_content_checks": checks,
+                             "generic_position_cases": n_pos, "generic_position_outcomes": pos_dist},
             "samples": [{"derive": c[0], "struct": c[1]} for c in cases[:3]],
         }
     except C.BuildError as e:
